@@ -41,7 +41,7 @@ def sim_pipe():
             except OSError:
                 pass
         STATS["pipes"] += 1
-        _k.K.note(f"pipe:{r},{w}")
+        _k.K.note(f"pipe:{_k.K.fdn(r)},{_k.K.fdn(w)}")
     return r, w
 
 
@@ -53,7 +53,7 @@ def sim_openpty():
         os.set_blocking(m, False)
         os.set_blocking(s, False)
         STATS["ptys"] += 1
-        _k.K.note(f"pty:{m},{s}")
+        _k.K.note(f"pty:{_k.K.fdn(m)},{_k.K.fdn(s)}")
     return m, s
 
 
@@ -374,7 +374,7 @@ def sim_close(fd):
     k = _k.K
     if k is not None and k.active and k.me() is not None:
         me = k.me()
-        k.note(f"close:{fd}:t{me.tid}")
+        k.note(f"close:{k.fdn(fd)}:t{me.tid}")
     return os.close(fd)
 
 
